@@ -258,9 +258,14 @@ def run(chk, scratch):
             budget = 20
             chosen += rest[:max(0, budget - len(chosen))]
             if len(chosen) > 72:
-                # quick tier: a seed-dependent sample of the call sites (the thorough tier runs every crash point)
-                rng.shuffle(chosen)
-                chosen = sorted(chosen[:72])
+                # quick tier: a seed-dependent sample of the call sites (the thorough tier runs every crash point); the points at which a file
+                # that a resumed run would take over is created, renamed or indexed are always kept
+                keep_ = {e["n"] for e in points if e["op"] == "rename" or ".fai" in os.path.basename(e["path"]) or ".gzi" in os.path.basename(e["path"]) or
+                         os.path.basename(e["path"]).lower().endswith((".fa", ".fasta", ".fna", ".db", ".params", ".params.tmp"))}
+                must_ = [n for n in chosen if n in keep_]
+                rest_ = [n for n in chosen if n not in keep_]
+                rng.shuffle(rest_)
+                chosen = sorted(must_ + rest_[:max(0, 72 - len(must_))])
         site_by_n = {e["n"]: site_of(e, clean) for e in points}
         per_conf[cname] = {"mutations": len(muts), "crash_points_in_scope": len(points), "executed": len(chosen),
                            "distinct_sites": len(by_site), "exhaustive": len(chosen) == len(points)}
